@@ -177,11 +177,6 @@ func (f *fnState) call(i *ssa.Call) {
 		if o := callee.Origin(); o != nil {
 			key = o.String()
 		}
-		fc := f.e.Contracts[key]
-		if fc == nil {
-			f.vals[i] = f.unknownCall(key, i.Type())
-			return
-		}
 		sig := callee.Signature
 		var names []string
 		if sig.Recv() != nil {
@@ -189,6 +184,20 @@ func (f *fnState) call(i *ssa.Call) {
 		}
 		for k := 0; k < sig.Params().Len(); k++ {
 			names = append(names, sig.Params().At(k).Name())
+		}
+		fc := f.e.Contracts[key]
+		// a specialised contract applies when an interface argument's dynamic type is known statically
+		for k, a := range c.Args {
+			if mi, ok := a.(*ssa.MakeInterface); ok && k < len(names) {
+				sk := fmt.Sprintf("%s[%s:%s]", key, names[k], types.TypeString(mi.X.Type(), nil))
+				if sfc := f.e.Contracts[sk]; sfc != nil {
+					fc, key = sfc, sk
+				}
+			}
+		}
+		if fc == nil {
+			f.vals[i] = f.unknownCall(key, i.Type())
+			return
 		}
 		f.vals[i] = f.applyContract(fc, key, names, args, sig, i.Type())
 	default:
@@ -262,17 +271,20 @@ func (f *fnState) applyContract(fc *spec.FuncContract, key string, names []strin
 	// effects
 	f.havocModifies(fc, ctx, pre)
 	// results
+	// results are run-local; for assumed (external) contracts the two runs of a
+	// non-interference check get the same results whenever the arguments agree
+	rp := "c_"
 	var res SV
 	if t, ok := rt.(*types.Tuple); ok {
 		res = SV{Typ: rt}
 		rn := resultNames(sig)
 		for k := 0; k < t.Len(); k++ {
-			v := f.freshOf("r_"+rn[k], t.At(k).Type())
+			v := f.freshOf(rp+rn[k], t.At(k).Type())
 			res.Agg = append(res.Agg, v)
 			binds[rn[k]] = v
 		}
 	} else {
-		res = f.freshOf("r", rt)
+		res = f.freshOf(rp+"res", rt)
 		rn := resultNames(sig)
 		if len(rn) > 0 {
 			binds[rn[0]] = res
@@ -280,9 +292,30 @@ func (f *fnState) applyContract(fc *spec.FuncContract, key string, names []strin
 		binds["result"] = res
 	}
 	f.resultRefFacts(res)
+	if fc.Assumed {
+		var as []string
+		for _, a := range args {
+			if a.T != "" || len(a.Agg) > 0 {
+				as = append(as, f.flatten(a)...)
+			}
+		}
+		f.detFacts = append(f.detFacts, detFact{at: len(f.log), args: as, res: f.flatten(res)})
+	}
 	post := &specCtx{f: f, env: f.cur, old: pre, binds: binds, pkg: pkg, callee: true}
 	for _, c := range fc.Ensures {
 		f.assume(f.specBool(c.E, post))
+	}
+	// a callee's verified non-interference clause may be used relationally by the caller's NI check
+	if !fc.Assumed {
+		for _, ni := range fc.NI {
+			var as []string
+			for _, a := range args {
+				if a.T != "" || len(a.Agg) > 0 {
+					as = append(as, f.flatten(a)...)
+				}
+			}
+			f.detFacts = append(f.detFacts, detFact{at: len(f.log), args: as, res: f.flatten(res), cond: f.specBool(ni.Cond, post)})
+		}
 	}
 	return res
 }
@@ -360,6 +393,10 @@ func (f *fnState) modItem(e spec.Expr, ctx *specCtx, get func(string) *modSet) {
 			}
 			return
 		case "tr", "hw":
+			if len(x.Args) == 0 {
+				get("G$" + x.Fn).any = true
+				return
+			}
 			b := f.specVal(x.Args[0], ctx)
 			r := fmt.Sprintf("(l-ref (s-loc %s))", b.T)
 			m := get("G$" + x.Fn)
@@ -542,6 +579,8 @@ func (f *fnState) havocModifies(fc *spec.FuncContract, ctx *specCtx, pre *env) {
 		var allowed []string
 		if isLoc {
 			allowed = append(allowed, fmt.Sprintf("(>= (l-ref fk) %s)", nrOld))
+		} else if key == "G$tr" || key == "G$hw" {
+			allowed = append(allowed, fmt.Sprintf("(>= fk %s)", nrOld))
 		}
 		for _, p := range ms.preds {
 			allowed = append(allowed, p("fk"))
@@ -596,6 +635,9 @@ func (f *fnState) frameGoal(key string, sets map[string]*modSet, class, site str
 	var allowed []string
 	if isLoc {
 		allowed = append(allowed, fmt.Sprintf("(>= (l-ref %s) %s)", k, f.get(f.entry, "G$nextref", sInt).T))
+	} else if key == "G$tr" || key == "G$hw" {
+		// ghost state of buffers allocated in this call
+		allowed = append(allowed, fmt.Sprintf("(>= %s %s)", k, f.get(f.entry, "G$nextref", sInt).T))
 	}
 	if ms != nil {
 		for _, p := range ms.preds {
